@@ -229,6 +229,12 @@ func (i *blockIter) Seek(key []byte) bool {
 		return false
 	}
 
+	if i.riStart >= i.riLimit {
+		// Empty slice range, there is no restart point to seek.
+		i.dir = dirEOI
+		return false
+	}
+
 	ri, offset, err := i.block.seek(i.tr.cmp, i.riStart, i.riLimit, key)
 	if err != nil {
 		i.sErr(err)
